@@ -80,6 +80,16 @@ Theorem C13_log_order_is_causal :
     (e_clock a < e_clock b)%N -> i < j.
 Proof. exact listing_respects_causality. Qed.
 
+(* message listings: an entry that does not open (chain key of its sender not held) is skipped and
+   nothing else changes: the same errors, the same order, every entry of the range that opens *)
+Theorem C13_unopenable_entries_are_skipped_only :
+  (forall es s u r, list_open_events es s u r [] = list_events es s u r) /\
+  (forall es s u r skip l l', list_events es s u r = Some l -> list_open_events es s u r skip = Some l' ->
+                              forall i, In i l' <-> (In i l /\ ~ In i skip)) /\
+  (forall es s u r skip, list_open_events es s u r skip = None <-> list_events es s u r = None).
+Proof. exact (conj list_open_nothing_to_skip (conj list_open_exact list_open_fails_like_plain)). Qed.
+
+Print Assumptions C13_unopenable_entries_are_skipped_only.
 Print Assumptions C13_log_order_is_causal.
 Print Assumptions C13_source_order.
 Print Assumptions C13_range_exact.
